@@ -4,6 +4,9 @@ package main
 
 import (
 	"strings"
+
+	"github.com/tinode/chat/server/auth"
+	"github.com/tinode/chat/server/store/types"
 	"unicode"
 	"unicode/utf8"
 )
@@ -208,3 +211,51 @@ func harnessC19Normalize(nTags, maxLen int, alphabet string) {
 func Harness_C19_normalize_2x3() { harnessC19Normalize(2, 3, "aB1 -") }
 func Harness_C19_normalize_utf8() { harnessC19Normalize(1, 4, "a \xc3\xa9") }
 func Harness_C19_normalize_3x2() { harnessC19Normalize(3, 2, "aB1 -") }
+
+// Clients can never add or remove tags in a reserved namespace: {set tags} through the real replySetTags on a
+// group topic whose owner keeps the existing reserved tag and adds one arbitrary tag spelled with any mix of
+// case and surrounding blanks. Whatever is stored afterwards holds exactly the reserved tags it held before.
+func Harness_C19_set_tags_reserved_namespace() {
+	fx := verifNewTopic(verifKindGrp, 2)
+	t := fx.topic
+	globals.immutableTagNS = map[string]bool{"em": true}
+	globals.maxTagCount = 8
+	t.tags = []string{"em:x1", "plain"}
+	fx.store.topics[t.name].Tags = types.StringSlice{"em:x1", "plain"}
+	owner := t.owner
+	sess := verifNewSession("sid-o", owner, auth.LevelAuth, 16)
+	fx.attach(sess, owner, false)
+	extra := verifNondetString("tag", 4, 5, "eEm:y ")
+	msg := &ClientComMessage{Id: "r1", AsUser: owner.UserId(), AuthLvl: int(auth.LevelAuth), Original: t.name, RcptTo: t.name,
+		Timestamp: types.TimeNow(), sess: sess, init: true, MetaWhat: constMsgMetaTags,
+		Set: &MsgClientSet{Id: "r1", Topic: t.name, MsgSetQuery: MsgSetQuery{Tags: []string{"em:x1", "plain", extra}}}}
+	t.handleMeta(msg)
+	reserved := func(tags []string) int {
+		n := 0
+		for _, tg := range tags {
+			// a tag of the reserved namespace: prefix, colon, and a non-empty value of tag characters
+			// (within this harness's alphabet the value characters are lower-case letters and digits)
+			isRes := strings.HasPrefix(tg, "em:") && len(tg) > 3
+			for i := 3; isRes && i < len(tg); i++ {
+				if !(tg[i] >= 'a' && tg[i] <= 'z') && !(tg[i] >= '0' && tg[i] <= '9') {
+					isRes = false
+				}
+			}
+			if isRes {
+				n++
+				verifAssert(tg == "em:x1", "no-new-tag-in-a-reserved-namespace")
+			}
+		}
+		return n
+	}
+	verifAssert(reserved(t.tags) == 1, "reserved-tags-unchanged-live")
+	verifAssert(reserved([]string(fx.store.topics[t.name].Tags)) == 1, "reserved-tags-unchanged-stored")
+	n := 0
+	for _, r := range verifDrainSend(sess) {
+		if r != nil && r.Ctrl != nil && r.Ctrl.Id == "r1" {
+			n++
+		}
+	}
+	verifAssert(n == 1, "set-tags-answered-once")
+	verifReach("end")
+}
